@@ -85,8 +85,8 @@ def run(ctx, model_ok):
                                 'actual': lim['items'], 'why': 'limiting the output count changed the lines printed'})
     # semantic streams (renames of pids mid-stream) x process filter: lines of a dump cut on a record boundary are a prefix
     sg = StreamGen(pc.Universe())
-    for _ in range(6 if ctx.quick() else 60):
-        threads, evs = sg.gen(rng, n_ops=rng.choice([6, 14]))
+    for si in range(8 if ctx.quick() else 60):
+        threads, evs = sg.gen(rng, n_ops=rng.choice([6, 14]), rich=(si % 2 == 1))
         f = sg.v2(threads, evs)
         base = len(f) - 64 * len(evs)
         proc = rng.choice([str(threads[0][1]), threads[0][2].decode() or 'Safari', 'Safari', 'xpcproxy'])
